@@ -27,7 +27,12 @@ where
     where
         I: IntoIterator<Item = Pixel<Self::Color>>,
     {
+        let bounding_box = self.bounding_box();
         for pixel in pixels {
+            if !bounding_box.contains(pixel.0) {
+                continue;
+            }
+
             let x = pixel.0.x as u16;
             let y = pixel.0.y as u16;
 
